@@ -1027,6 +1027,13 @@ class SemanticErrorChecker:
         if isinstance(expression, list):
             given_type = helpers.get_type_of_variable_list(expression, task, self.structs)
             return isinstance(given_type, str) and given_type == "string"
+        if (
+            isinstance(expression, dict)
+            and expression.get("left") == "("
+            and expression.get("right") == ")"
+        ):
+            # parentheses do not change the type
+            return self.expression_is_string(expression["binOp"], task)
         return False
 
     def check_if_variable_definition_is_valid(
